@@ -38,6 +38,14 @@ class Engine(ExprMixin, StmtMixin, CallMixin, BuiltinMixin, Builtin2Mixin, SpecM
 
     def call_function(self, st, fv, args, node=None, run_async=False):
         fi = fv.fi
+        if fi.qualname == 'plumpy.base.utils.call_with_super_check':
+            # base/utils.call_with_super_check(f, *a, **k): calls f(*a, **k); the `_called` bookkeeping that asserts every
+            # override called super() is dropped (A-SUPER), the text of the function is checked to be the modelled one
+            self.check_wrapper_text(fi.qualname, ['self = wrapped.__self__', 'wrapped(*args, **kwargs)', 'assert self._called == call_count'])
+            self.assumptions_used.add('A-SUPER: overrides of super_check-ed hooks call super(); the _called counter of base/utils.py is not modelled')
+            if not args.pos:
+                raise Unsupported('call_with_super_check()', node)
+            return self.call(st, args.pos[0], Args(args.pos[1:], args.tail, args.kw, args.kwrest), node)
         if fi.is_async and not run_async:
             return self.ok(st, CoroV(fv, args, node))
         c = self.contract_for(fi, st)
